@@ -182,6 +182,11 @@ pub fn generate(seed: u64, idx: u64) -> Scenario {
                     }],
                 );
             }
+            (None, 13..=15) => {
+                // a feature request for a document that is closed (or was never opened)
+                let m = *rng.pick(&["textDocument/foldingRange", "textDocument/semanticTokens/full", "textDocument/hover", "textDocument/completion", "textDocument/definition"]);
+                s.request(m, &uri, rng.below(4) as u32, 2 + rng.below(8) as u32);
+            }
             (None, _) => {
                 s.probe(&uri);
             }
@@ -220,6 +225,11 @@ pub fn generate(seed: u64, idx: u64) -> Scenario {
                     s.close(&uri);
                 }
                 s.open(&uri, &t);
+                if rng.chance(400) {
+                    // asked before any change of the reopened document
+                    let m = *rng.pick(&["textDocument/foldingRange", "textDocument/semanticTokens/full", "textDocument/hover"]);
+                    s.request(m, &uri, 2, 2 + rng.below(8) as u32);
+                }
             }
             (Some(_), 18) => {
                 s.unknown_request("workspace/unknown");
@@ -504,6 +514,93 @@ pub fn judge(sc: &Scenario) -> Judgement {
                         "response #{k} ({method}) differs between a lock-step run and the pipelined run of the same session: {:?} vs {:?}",
                         a.get(k).map(|r| short(&format!("{r:?}"))),
                         b.get(k).map(|r| short(&format!("{r:?}")))
+                    ),
+                );
+                return j;
+            }
+        }
+    }
+    // (b'') a sample of the feature answers against a server that was told nothing but the
+    // current content of that one document (read-your-writes, isolation and forgetting for
+    // every kind of answer, whatever the server caches): preferably requests for documents that
+    // were closed or reopened before
+    {
+        let mut docs: BTreeMap<String, String> = BTreeMap::new();
+        let mut touched: BTreeMap<String, bool> = BTreeMap::new(); // closed or reopened before
+        let mut cands: Vec<(bool, i32, String, String, u32, u32, Option<String>)> = vec![];
+        for st in &sc.script {
+            match &st.op {
+                ClientOp::Open { uri, text } => {
+                    if docs.contains_key(uri) {
+                        touched.insert(uri.clone(), true);
+                    }
+                    docs.insert(uri.clone(), text.clone());
+                }
+                ClientOp::Change { uri, edits } => {
+                    if let Some(t) = docs.get_mut(uri) {
+                        for e in edits {
+                            crate::h::client::apply_edit(t, e);
+                        }
+                    }
+                }
+                ClientOp::Close { uri } => {
+                    docs.remove(uri);
+                    touched.insert(uri.clone(), true);
+                }
+                ClientOp::Request { id, method, uri, line, character } => {
+                    cands.push((touched.get(uri).copied().unwrap_or(false), *id, method.clone(), uri.clone(), *line, *character, docs.get(uri).cloned()));
+                }
+                ClientOp::Shutdown { .. } | ClientOp::Exit => break,
+                _ => {}
+            }
+        }
+        let mut pick = tokio::sim::Rng::derive(sc.seed ^ sc.script.len() as u64, "c20-sample");
+        let mut chosen = vec![];
+        let (mut pref, mut rest): (Vec<_>, Vec<_>) = cands.into_iter().partition(|c| c.0);
+        for _ in 0..2 {
+            if !pref.is_empty() {
+                chosen.push(pref.swap_remove(pick.below(pref.len())));
+            }
+        }
+        if !rest.is_empty() {
+            chosen.push(rest.swap_remove(pick.below(rest.len())));
+        }
+        let answers = super::c19::canon_responses(sc, &rec);
+        for (_, id, method, uri, line, character, text) in chosen {
+            let Some(got) = answers.iter().find(|r| r.0 == id as i64) else { continue };
+            let mut fs = crate::h::session::Session::new();
+            fs.handshake(false);
+            if let Some(t) = &text {
+                fs.open(&uri, t);
+            }
+            fs.id_scheme(id, 1);
+            fs.request(&method, &uri, line, character);
+            fs.shutdown();
+            fs.exit();
+            let fsc = Scenario {
+                script: fs.steps,
+                label: "fresh server, current content only".into(),
+                ..super::c19::reference_of(sc)
+            };
+            let fr = runner::run(&fsc, &RunOptions::default());
+            j.runs.push(RunStats::of(&fr));
+            if fr.hang.is_some() || !fr.task_panics.is_empty() {
+                continue;
+            }
+            let fresh = super::c19::canon_responses(&fsc, &fr);
+            let Some(want) = fresh.iter().find(|r| r.0 == id as i64) else { continue };
+            j.comparisons += 1;
+            j.probe("feature answer compared with a fresh server that knows the current content only", 1);
+            if want != got {
+                j.violate(
+                    ID,
+                    "answer-from-current-content",
+                    format!("answer-from-current-content {method} {}", if text.is_some() { "open" } else { "closed" }),
+                    format!(
+                        "request #{id} ({method}) on {uri} ({}): the server answered {}, a server that was only told the current content answers {}",
+                        if text.is_some() { "open" } else { "closed / never opened" },
+                        short(&format!("{:?}", (&got.1, got.2))),
+                        short(&format!("{:?}", (&want.1, want.2)))
                     ),
                 );
                 return j;
